@@ -22,6 +22,13 @@ pub enum Ty {
     IterSt,  // Iter: the cursor `node`
     DeSt,    // DoubleEndedIter: (head, tail)
     TravSt,  // Traverse / ReverseTraverse: (root, next)
+    IState,  // IndentedBlockState (is_last_item, is_first_line)
+    LState,  // LineState
+    Str,     // &str as bytes
+    Char,    // a char (its code)
+    Writer,  // IndentWriter
+    ListIState,
+    URes,    // Result<(), ()> as bool (true = Ok)
     Addr,    // a machine address / a usize obtained from one (Z)
     AddrRange, // Range<*const Node<T>>: (start, end)
     Never,
@@ -52,6 +59,13 @@ impl Ty {
             Ty::IterSt => "(option nid)".into(),
             Ty::DeSt => "(option nid * option nid)%type".into(),
             Ty::TravSt => "(nid * option edge)%type".into(),
+            Ty::IState => "istate".into(),
+            Ty::LState => "lstate".into(),
+            Ty::Str => "(list N)".into(),
+            Ty::Char => "N".into(),
+            Ty::Writer => "gwriter".into(),
+            Ty::ListIState => "(list istate)".into(),
+            Ty::URes => "bool".into(),
             Ty::Addr => "Z".into(),
             Ty::AddrRange => "(Z * Z)%type".into(),
             Ty::Never => "unit".into(),
@@ -97,6 +111,34 @@ impl Code {
         }
         Code::Seq(Box::new(m), Box::new(k))
     }
+    /// the code as a pure term, if it has no effects (only ret / let / if / match)
+    pub fn as_pure(&self) -> Option<String> {
+        match self {
+            Code::Ret(t) => Some(t.clone()),
+            Code::Let(p, t, k) => {
+                let pp = if p.starts_with('(') { format!("'{}", p) } else { p.clone() };
+                Some(format!("let {} := {} in\n{}", pp, t, k.as_pure()?))
+            }
+            Code::If(c, a, b) => Some(format!("(if {} then {} else {})", c, a.as_pure()?, b.as_pure()?)),
+            Code::Bind(p, m, k) => {
+                let pp = if p.starts_with('(') { format!("'{}", p) } else { p.clone() };
+                Some(format!("let {} := {} in\n{}", pp, m.as_pure()?, k.as_pure()?))
+            }
+            Code::Seq(m, k) => {
+                let _ = m.as_pure()?;
+                k.as_pure()
+            }
+            Code::Match(sc, arms) => {
+                let mut o = format!("match {} with", sc);
+                for (p, c) in arms {
+                    o += &format!(" | {} => {}", p, c.as_pure()?);
+                }
+                Some(o + " end")
+            }
+            _ => None,
+        }
+    }
+
     pub fn print(&self, ind: usize) -> String {
         let pad = " ".repeat(ind);
         match self {
